@@ -670,6 +670,26 @@ func (cr *cliRun) runSet(results []gen.ResultSpec, splits [][][]int, assignments
 	add := func(kind string, cc cliCase, files []string, base bool) {
 		out := cr.path(fmt.Sprintf("out%d", nout))
 		nout++
+		if i := strings.Index(kind, "@"); i >= 0 {
+			// a second run of the command onto an output path that already holds an output of the same kind
+			// (longer resp. shorter than the new one): the path must hold the new output only
+			var old []byte
+			switch {
+			case kind[:i] == "encode" && kind[i:] == "@long":
+				old = encodeAll(cc.To, append(append(append([]vegeta.Result{}, rs...), rs...), rs...))
+			case kind[:i] == "encode":
+				old = encodeAll(cc.To, rs[:1])
+			case kind[i:] == "@long":
+				old = []byte(`{"requests":424242,"previous":"` + strings.Repeat("x", 40000) + `"}` + "\n")
+			default:
+				old = []byte(`{"requests":1}` + "\n")
+			}
+			if err := os.WriteFile(out, old, 0o644); err != nil {
+				panic(err)
+			}
+			s.Count("cli:output_path_exists" + kind[i:])
+			kind = kind[:i]
+		}
 		if kind == "encodeslow" {
 			kind = "encode"
 			if ch, err := gen.SlowSink(out, 4096, 300*time.Microsecond, sinkCancel); err == nil {
@@ -741,6 +761,11 @@ func (cr *cliRun) runSet(results []gen.ResultSpec, splits [][][]int, assignments
 		cc := cliCase{Results: results, Parts: [][]int{all}, Encs: []string{enc}, To: "json"}
 		add("jsonb", cc, []string{f}, true)
 		add("encode", cc, []string{f}, true)
+		if len(results) <= 200 {
+			add("jsonb@long", cc, []string{f}, false)
+			add("encode@long", cc, []string{f}, false)
+			add("encode@short", cc, []string{f}, false)
+		}
 		if cr.slow {
 			add("encodeslow", cc, []string{f}, true)
 		}
@@ -784,6 +809,11 @@ func (cr *cliRun) runSet(results []gen.ResultSpec, splits [][][]int, assignments
 				add("jsonb", cc, files, false)
 			}
 			add("encode", cc, files, false)
+			if ai < 3 && len(results) <= 200 {
+				sfx := []string{"@long", "@short", "@long"}[ai]
+				add("jsonb"+sfx, cc, files, false)
+				add("encode"+sfx, cc, files, false)
+			}
 			if cr.slow {
 				add("encodeslow", cc, files, false)
 			}
